@@ -11,14 +11,16 @@ CTRL_OPS = {"bz", "bnz", "b", "callsub", "retsub", "log", "app_global_put", "app
 # ---------------------------------------------------------------------------------------------
 # alphabets
 A_CONTROL = dict(Leaves=["i1", "i2", "au0"], UnOps=["!"], BinOps=["-", "<"],
-                 Stmts=["Pop", "Assert", "Return", "Approve", "Reject"],
-                 Ctrl=["Seq2", "If2", "If3", "While", "Break", "Continue"], NVarsU=1, NVarsB=0)
+                 Stmts=["Pop", "Store", "Assert", "Return", "Approve", "Reject"],
+                 Ctrl=["Seq2", "If2", "If3", "While", "Break", "Continue", "VSeq", "VIf"], NVarsU=1, NVarsB=0)
 A_EFFECTS = dict(Leaves=["i0", "i1", "au0", "ba", "gget"], UnOps=["itob"], BinOps=["-"],
                  Stmts=["Pop", "Log", "GPut", "GDel", "Assert2", "Return", "Err"],
-                 Ctrl=["Seq2", "Seq3", "If3", "Cond2", "EmptySeq"], NVarsU=0, NVarsB=0)
+                 Ctrl=["Seq2", "Seq3", "If3", "Cond2", "EmptySeq", "VSeq", "VIf"], NVarsU=0, NVarsB=0)
 A_LOOPS = dict(Leaves=["i1", "au0"], UnOps=[], BinOps=["<", "+"],
-               Stmts=["Pop", "Return", "Approve"],
-               Ctrl=["Seq2", "Seq3", "If2", "For", "While", "Break", "Continue"], NVarsU=2, NVarsB=0)
+               Stmts=["Pop", "Store", "Return", "Approve"],
+               Ctrl=["Seq2", "Seq3", "If2", "For", "While", "Break", "Continue", "VSeq"], NVarsU=2, NVarsB=0)
+A_NEST = dict(Leaves=["i1"], UnOps=[], BinOps=[], Stmts=["LogC", "ContIf", "BrkIf"],
+              Ctrl=["Seq2", "Seq3", "CWhile", "CFor", "VSeq"], NVarsU=0, NVarsB=0, NCtr=2)
 A_CALLS = dict(Leaves=["i1", "au0"], UnOps=[], BinOps=["-", "<"], Stmts=["Pop", "Return"],
                Ctrl=["Seq2", "If3", "If2"], NVarsU=1, NVarsB=0)
 A_WIDE = dict(Leaves=["i0", "i1", "i2", "imax", "au0", "au1", "ab0", "ba", "bb", "be", "sender", "oc", "gsize"],
@@ -50,7 +52,9 @@ def finalize(prog, mode="app"):
 
 
 def with_vars(prog, c):
-    prog["vars"] = [{"t": "u", "slot": -1}] * c.get("NVarsU", 0) + [{"t": "b", "slot": -1}] * c.get("NVarsB", 0)
+    vs = [{"t": "u", "slot": -1}] * c.get("NVarsU", 0) + [{"t": "b", "slot": -1}] * c.get("NVarsB", 0)
+    vs += [{"t": "u", "slot": -1}] * max(0, prog.get("nvars", 0) - len(vs))       # routine-private variables
+    prog["vars"] = vs
     return prog
 
 
@@ -58,9 +62,11 @@ def c01_programs(tier, seed, rnd):
     """Returns (programs, TLC results of the generator runs)."""
     plans = []
     if tier == "quick":
-        plans = [("control", A_CONTROL, 6, 2500), ("effects", A_EFFECTS, 5, 1500), ("loops", A_LOOPS, 7, 1500)]
+        plans = [("control", A_CONTROL, 6, 2200), ("effects", A_EFFECTS, 6, 1300), ("loops", A_LOOPS, 6, 800),
+                 ("nest", A_NEST, 8, 1500)]
     else:
-        plans = [("control", A_CONTROL, 7, 30000), ("effects", A_EFFECTS, 6, 15000), ("loops", A_LOOPS, 8, 15000)]
+        plans = [("control", A_CONTROL, 7, 30000), ("effects", A_EFFECTS, 7, 15000), ("loops", A_LOOPS, 7, 10000),
+                 ("nest", A_NEST, 9, 12500)]
     progs, results = [], []
     for name, alpha, n, cap in plans:
         c = dict(alpha)
@@ -167,11 +173,11 @@ def class_histogram(verdicts):
 
 # ---------------------------------------------------------------------------------------------
 # C20 / C17 streams
-A_DEGEN = dict(Leaves=["i1", "au0"], UnOps=[], BinOps=["<"], Stmts=["Pop", "Approve", "Return"],
-               Ctrl=["Seq2", "Seq3", "If2", "If3", "While", "For", "Break", "Continue", "EmptySeq"],
+A_DEGEN = dict(Leaves=["i1", "au0"], UnOps=[], BinOps=[], Stmts=["Nop", "Store", "Approve", "Return"],
+               Ctrl=["Seq2", "Seq3", "If2", "If3", "While", "For", "Break", "Continue", "EmptySeq", "VSeq"],
                NVarsU=1, NVarsB=0, InitVars=False)
-A_UNINIT = dict(Leaves=["i1", "au0"], UnOps=[], BinOps=["<"], Stmts=["Pop", "Return", "Approve"],
-                Ctrl=["Seq2", "Seq3", "If2", "If3", "Cond2", "While", "For", "Break", "Continue"],
+A_UNINIT = dict(Leaves=["i1", "au0"], UnOps=[], BinOps=["<"], Stmts=["Pop", "Store", "Return", "Approve"],
+                Ctrl=["Seq2", "Seq3", "If2", "If3", "Cond2", "While", "For", "Break", "Continue", "VSeq"],
                 NVarsU=2, NVarsB=0, InitVars=False)
 
 
@@ -234,8 +240,8 @@ def c20_known(prog, clause, site, result):
     return None
 
 
-A_UNINIT_IDX = dict(Leaves=["i1", "au0", "idx1"], UnOps=[], BinOps=["<"], Stmts=["Pop", "Return", "Approve"],
-                    Ctrl=["Seq2", "Seq3", "If2", "If3", "While", "Break"], NVarsU=2, NVarsB=0, InitVars=False)
+A_UNINIT_IDX = dict(Leaves=["i1", "au0", "idx1"], UnOps=[], BinOps=["<"], Stmts=["Pop", "Store", "Return", "Approve"],
+                    Ctrl=["Seq2", "Seq3", "If2", "If3", "While", "Break", "VSeq"], NVarsU=2, NVarsB=0, InitVars=False)
 
 
 def c17_programs(tier, seed, rnd):
